@@ -15,7 +15,7 @@ from symx.values import zreal
 BOUNDS = {
     "quick": "schemes with 1-3 datasets in 1-2 groups, <= 3x3 data points per dataset, <= 4 clp labels; all data "
     "values, weights, matrix entries, scales, relation/penalty parameters symbolic; axes and interval bounds concrete",
-    "thorough": "quick configurations plus seeded feature combinations (up to 3 datasets, 3x3 points)",
+    "thorough": "quick configurations plus 400 seeded feature combinations (up to 4 datasets, 3x3 points)",
 }
 OUTSIDE = "more than 3 datasets per group, more than 3x3 points per dataset, symbolic coordinates (C09/C08)"
 
@@ -129,11 +129,11 @@ def base_configs():
 INF = float("inf")
 
 
-def random_configs(n, seed):
+def random_configs(n, seed, max_datasets=3):
     rng = random.Random(seed)
     out = []
     for i in range(n):
-        nds = rng.choice([1, 2, 2, 3])
+        nds = rng.choice([1, 2, 2, 3] + ([4] if max_datasets >= 4 else []))
         mcs = {"m1": {"labels": ["s1", "s2"], "idx": rng.random() < 0.3},
                "m2": {"labels": rng.choice([["s2", "s3"], ["s3"], ["s1", "s3"]]), "idx": rng.random() < 0.3}}
         link = rng.choice([True, False, None])
@@ -172,14 +172,14 @@ def random_configs(n, seed):
     return out
 
 
-def configs(tier, seed):
+def configs(tier, seed, n_random=None):
     from harness import pipeline as pl
 
     cfgs = base_configs()
     bad = [c["name"] for c in cfgs if not pl.valid_cfg(c)]
     assert not bad, f"invalid base configurations {bad}"
-    want = 8 if tier == "quick" else 120
-    rnd = [c for c in random_configs(want * 3, seed) if pl.valid_cfg(c)][:want]
+    want = n_random if n_random is not None else (8 if tier == "quick" else 400)
+    rnd = [c for c in random_configs(want * 3, seed, max_datasets=3 if tier == "quick" else 4) if pl.valid_cfg(c)][:want]
     return cfgs + rnd
 
 
